@@ -113,6 +113,100 @@ def scale_text(name, size):
     return pre + unit * n + suf
 
 
+# Include cycles under conditionals. One file of a cycle of 1..3 files (the gate) carries its #include of the next file at one of
+# these places; G is the gate's guard macro, M a macro the main file may define, H a second guard. {INC} is the include line.
+CYCLE_GATES = {
+    "plain": "{INC}",
+    "ifndef-body-before-define": "#ifndef G\n{INC}#define G\n#endif\n",
+    "ifndef-body-after-define": "#ifndef G\n#define G\n{INC}#endif\n",
+    "ifndef-else": "#ifndef G\n#define G\n#else\n{INC}#endif\n",
+    "ifndef-else-never-defined": "#ifndef G\ny = 1;\n#else\n{INC}#endif\n",
+    "ifdef-body": "#ifdef M\n{INC}#endif\n",
+    "ifdef-else": "#ifdef M\nx = 1;\n#else\n{INC}#endif\n",
+    "nested-ifdef-in-guard": "#ifndef G\n#define G\n#ifdef M\n{INC}#endif\n#endif\n",
+    "nested-guard-in-else": "#ifndef G\n#define G\n#else\n#ifndef H\n#define H\n{INC}#endif\n#endif\n",
+    "nested-else-in-else": "#ifndef G\n#define G\n#else\n#ifdef M\nz = 1;\n#else\n{INC}#endif\n#endif\n",
+}
+
+
+def include_cycle_cases():
+    """(name, main text, files) for every gate position x cycle length x M defined or not x G predefined or not x how the gate is reached"""
+    out = []
+    for gate, tmpl in sorted(CYCLE_GATES.items()):
+        for k in (1, 2, 3):
+            names = ["c%d.hpp" % i for i in range(k)]
+            files = {}
+            for i, n in enumerate(names):
+                inc = '#include "/v/%s"\n' % names[(i + 1) % k]
+                files[n.encode()] = ("// %s\n" % n + (tmpl.replace("{INC}", inc) if i == 0 else inc) + "v%d = %d;\n" % (i, i)).encode()
+            for mdef in (0, 1):
+                for gpre in (0, 1):
+                    for reach in ("once", "twice", "wrapper-once", "wrapper-twice", "enter-behind-gate"):
+                        if reach == "enter-behind-gate" and k == 1:
+                            continue
+                        head = ("#define M 1\n" if mdef else "") + ("#define G 1\n" if gpre else "")
+                        fs = dict(files)
+                        g = '#include "/v/c0.hpp"\n'
+                        if reach == "once":
+                            body = g
+                        elif reach == "twice":
+                            body = g + g
+                        elif reach.startswith("wrapper"):
+                            fs[b"w.hpp"] = (g * (2 if reach.endswith("twice") else 1)).encode()
+                            body = '#include "/v/w.hpp"\n'
+                        else:
+                            body = '#include "/v/c1.hpp"\n'
+                        out.append(("%s/k%d/M%d/G%d/%s" % (gate, k, mdef, gpre, reach), (head + body + "done = 1;\n").encode(), fs))
+    return out
+
+
+def include_reference(main, files):
+    """What the property prescribes for such a file tree. Directives as the preprocessor reads them: conditionals per file, a
+    conditional inside an inactive section stays inactive, #define / #include only act in active text.
+      'ok'              no #include that is taken names a file that is being included: a result, no recursive-include error
+      'cycle-ends'      one does, but followed through the inclusion ends by itself (an include guard stops the copy): the cycle is
+                        reported as a recursive include (10003) or it ends with a result
+      'cycle-diverges'  one does and following it never ends: it must be reported as a recursive include"""
+    class Diverges(Exception):
+        pass
+    seen = {"cycle": False}
+
+    def walk():
+        macros = set()
+
+        def run(text, open_files):
+            if len(open_files) > 40:
+                raise Diverges()
+            conds = []   # (allow, parent_allow)
+            for line in text.decode("latin-1").split("\n"):
+                st = line.strip()
+                active = not conds or conds[-1][0]
+                if st.startswith("#ifndef ") or st.startswith("#ifdef "):
+                    neg = st.startswith("#ifndef ")
+                    m = st.split(None, 1)[1].strip()
+                    conds.append(((active and ((m not in macros) if neg else (m in macros))), active))
+                elif st == "#else":
+                    if conds and conds[-1][1]:
+                        conds[-1] = (not conds[-1][0], conds[-1][1])
+                elif st == "#endif":
+                    if conds:
+                        conds.pop()
+                elif st.startswith("#define ") and active:
+                    macros.add(st.split()[1])
+                elif st.startswith("#include ") and active:
+                    tgt = st.split('"')[1].split("/")[-1]
+                    if tgt in open_files:
+                        seen["cycle"] = True
+                    run(files[tgt.encode()], open_files + [tgt])
+        run(main, ["m.sqf"])
+
+    try:
+        walk()
+    except Diverges:
+        return "cycle-diverges"
+    return "cycle-ends" if seen["cycle"] else "ok"
+
+
 RECURSIVE = [
     ("macro-self", b"#define A A\nA", {}, 10014), ("macro-self-args", b"#define F(X) F(X)\nF(1)", {}, 10014),
     ("macro-mutual", b"#define A B\n#define B A\nA", {}, 10014), ("macro-three", b"#define A B + 1\n#define B C\n#define C A\nx = A;", {}, 10014),
@@ -158,7 +252,7 @@ def main(replay=None):
         if evals and not kind.startswith(("corpus:", "eval")):
             return   # __EVAL/__EXEC run SQF code at preprocessing time (execution bounds are C11's property);
                      # __COUNTER__ is a process-wide counter (C20's recorded counterexample), not a front-end matter
-        c = {"kind": kind, "text": text, "files": files or {}, "routes": routes, "expect_code": None, "depth": None, "expect_some": None,
+        c = {"kind": kind, "text": text, "files": files or {}, "routes": routes, "expect_code": None, "depth": None, "expect_some": None, "expect_pp": None,
              "impl_only": evals}     # dedicated __EVAL texts: totality of the implementation only (the front-end models have no evaluator)
         c.update(kw)
         cases.append(c)
@@ -166,7 +260,7 @@ def main(replay=None):
     if replay:
         r = json.load(open(replay))["replay"]
         add(r.get("kind", "replay"), V.unhx(r["text_hex"]), {V.unhx(k): V.unhx(v) for k, v in r.get("files_hex", {}).items()},
-            r.get("routes", ALL), expect_code=r.get("expect_code"), depth=r.get("depth"), expect_some=r.get("expect_some"))
+            r.get("routes", ALL), expect_code=r.get("expect_code"), depth=r.get("depth"), expect_some=r.get("expect_some"), expect_pp=r.get("expect_pp"))
     else:
         cdir = os.path.join(V.VERIF, "corpus", PID)
         for fn in sorted(os.listdir(cdir)) if os.path.isdir(cdir) else []:
@@ -248,6 +342,9 @@ def main(replay=None):
         # ---- recursion guards
         for name, t, fs, code in RECURSIVE:
             add("recursive:" + name, t, fs, "PP", expect_code=code)
+        # ---- include cycles with the recursive #include under conditionals in every position
+        for name, t, fs in include_cycle_cases():
+            add("include-cycle:" + name, t, fs, "PP,PREPROCESS", expect_pp=include_reference(t, fs))
         # ---- deep nesting against the stack budget
         for d in DEPTH_MUST + DEPTH_BEYOND + ([100000] if thorough else []):
             for name, (t, fs, routes) in sorted(deep_family(d).items()):
@@ -287,7 +384,7 @@ def main(replay=None):
     def rep_of(c, il, ml, **extra):
         r = {"kind": c["kind"], "routes": c["routes"], "text_hex": hx(c["text"]), "text": c["text"][:400].decode("latin-1"),
              "text_length": len(c["text"]), "files_hex": {hx(k): hx(v) for k, v in list(c["files"].items())[:50]},
-             "expect_code": c["expect_code"], "depth": c["depth"], "expect_some": c["expect_some"], "impl": il[:3000], "model": ml[:3000]}
+             "expect_code": c["expect_code"], "depth": c["depth"], "expect_some": c["expect_some"], "expect_pp": c["expect_pp"], "impl": il[:3000], "model": ml[:3000]}
         r.update(extra)
         return r
 
@@ -299,6 +396,10 @@ def main(replay=None):
         wanted = ALL.split(",") if c["routes"] == "ALL" else c["routes"].split(",")
         nontrivial = False
         if "ANY" in ri:
+            any_overflow = ri["ANY"][0].startswith("CRASH:11") or (thorough and ri["ANY"][0].startswith("EXIT:1"))
+            if c["depth"] is not None and c["depth"] >= min(DEPTH_BEYOND) and any_overflow and run.known.has(PID, KNOWN_DEEP):
+                run.known_finding(KNOWN_DEEP); stats["known_deep"] += 1     # beyond the stack budget, like the attributed cases
+                continue
             pending.append((idx, "one of the routes %s ends in %s (failure not attributed to a route: more than 25 failing cases in this "
                             "harness process)" % (c["routes"], ri["ANY"][0]), rep_of(c, il, ml, route="ANY")))
             continue
@@ -368,6 +469,20 @@ def main(replay=None):
                 pending.append((idx, "route %s gives no result on a text it must accept (regression of a repaired defect, see corpus/C10)" % route,
                                 rep_of(c, il, ml, route=route)))
                 continue
+            if c["expect_pp"] is not None and route in ("PP", "PREPROCESS"):
+                reported = 10003 in [cd for _, cd in codes]
+                if c["expect_pp"] == "cycle-diverges" and not (reported and (cls == "NONE" or route == "PREPROCESS")):
+                    pending.append((idx, "route %s: an #include that is taken names a file that is being included and following it never ends, "
+                                    "and it is not reported as a recursive include (error 10003)" % route, rep_of(c, il, ml, route=route)))
+                    continue
+                if c["expect_pp"] == "cycle-ends" and cls != "SOME" and route == "PP" and not reported:
+                    pending.append((idx, "route %s: an include cycle that a guard ends gives neither a result nor the recursive-include error"
+                                    % route, rep_of(c, il, ml, route=route)))
+                    continue
+                if c["expect_pp"] == "ok" and (reported or (cls != "SOME" and route == "PP")):
+                    pending.append((idx, "route %s: no #include that is taken closes a cycle (the conditionals around it are inactive), yet "
+                                    "preprocessing %s" % (route, "reports a recursive include" if reported else "fails"), rep_of(c, il, ml, route=route)))
+                    continue
             if c["expect_code"] is not None and route == "PP":
                 if cls != "NONE" or c["expect_code"] not in [cd for _, cd in codes]:
                     pending.append((idx, "a self- or mutually recursive macro / include is not reported as error %d" % c["expect_code"],
@@ -476,7 +591,10 @@ def main(replay=None):
                        "stack and an address-space limit, twice on two fresh runtimes; oracle: no crash/timeout/OOM/exception, no result implies an "
                        "error-level diagnostic, both runs equal, recursive macros/includes give 10014/10003; tokens, reader characters, get_word/get_line "
                        "and #define splitting are compared with the extracted mechanism models; non-trivial = at least one route returned a result; "
-                       "determinism family (kind twice): inputs of the pools above in four length classes (<32, 32-63, 64-255, >=256 bytes), every parsing route "
+                       "include-cycle family: cycles of 1-3 files whose closing #include sits under conditionals in every position (#ifndef body before / after the "
+                       "#define, #else branch, #ifdef of a macro defined or not, nested conditionals), guard predefined or not, the gate file included once, twice, "
+                       "through a wrapper or entered behind the gate - a small reference evaluator of the directives says whether a cycle is taken and whether following it ends: a "
+                       "cycle that never ends must be error 10003, one that a guard ends is an error or a result, no cycle taken must be a result; determinism family (kind twice): inputs of the pools above in four length classes (<32, 32-63, 64-255, >=256 bytes), every parsing route "
                        "twice on the SAME runtime and once on a fresh one - each run must give a result or an error diagnostic and the later runs the same "
                        "class, value and diagnostics as the first; distinct by text. Thorough tier: every prefix of every corpus file, sanitizer build. Scaling family: texts whose whole size "
                        "is on ONE line (statements, array elements, operators, strings, config entries and classes, macro uses and calls) at 20/40/80 KB, "
